@@ -118,3 +118,36 @@ package model
 //@   ensures[C20] existing-element: old(anyElem) ==> len(n.UseCaseInformation) == len(I0) && (forall j int :: 0 <= j && j < len(I0) && j != first() ==> n.UseCaseInformation[j] == old(I0[j])) && n.UseCaseInformation[first()].Address == old(I0[first()].Address) && n.UseCaseInformation[first()].Actor == old(I0[first()].Actor)
 //@   ensures[C20] existing-element-has-it: old(anyElem) ==> exists q int :: 0 <= q && q < len(n.UseCaseInformation[first()].UseCaseSupport) && named(n.UseCaseInformation[first()].UseCaseSupport[q], useCaseName) && *n.UseCaseInformation[first()].UseCaseSupport[q].UseCaseAvailable == useCaseAvailable && *n.UseCaseInformation[first()].UseCaseSupport[q].UseCaseVersion == useCaseVersion
 //@   modifies n.UseCaseInformation, n.UseCaseInformation[len(n.UseCaseInformation)], cells(UseCaseInformationDataType), cells(UseCaseSupportType), held
+
+// ---------------------------------------------------------------------------------------
+// scaled numbers (C19): value = K * 10^-D with 0 <= D <= 4, K not divisible by 10 unless D == 0
+// (the canonical form of a decimal with at most four fractional digits).
+// Assumed library contract (strconv.FormatFloat 'f' -1 64 + strings.IndexByte + len): for such a value the
+// shortest round-tripping decimal has exactly D fractional digits.
+//@ func NewScaledNumberType qf
+//@   spec KF() float64
+//@   spec D() int
+//@   requires dom: 0 <= D() && D() <= 4 && fintegral(KF()) && flt(fabs(KF()), tofp(1048576))
+//@   requires val0: D() == 0 ==> value == KF()
+//@   requires val1: D() == 1 ==> value == fdiv(KF(), tofp(10))
+//@   requires val2: D() == 2 ==> value == fdiv(KF(), tofp(100))
+//@   requires val3: D() == 3 ==> value == fdiv(KF(), tofp(1000))
+//@   requires val4: D() == 4 ==> value == fdiv(KF(), tofp(10000))
+//@   axiom (D() == 0 ==> indexbyte(fmtfloat(value), 46) == 0 - 1) && (D() > 0 ==> indexbyte(fmtfloat(value), 46) > 0 - 1 && len(fmtfloat(value)) - indexbyte(fmtfloat(value), 46) - 1 == D())
+//@   ensures[C19] exact-d0: D() == 0 ==> i2f(*result.Number) == KF()
+//@   ensures[C19] exact-d1: D() == 1 ==> i2f(*result.Number) == KF() && *result.Scale == 0 - 1
+//@   ensures[C19] exact-d2: D() == 2 ==> i2f(*result.Number) == KF() && *result.Scale == 0 - 2
+//@   ensures[C19] exact-d3: D() == 3 ==> i2f(*result.Number) == KF() && *result.Scale == 0 - 3
+//@   ensures[C19] exact-d4: D() == 4 ==> i2f(*result.Number) == KF() && *result.Scale == 0 - 4
+//@   modifies nothing
+
+//@ func (*ScaledNumberType).GetValue qf
+//@   spec KF() float64
+//@   spec D() int
+//@   requires m != nil && m.Number != nil && m.Scale != nil && i2f(*m.Number) == KF() && *m.Scale == 0 - D() && 0 <= D() && D() <= 4 && fintegral(KF()) && flt(fabs(KF()), tofp(1048576))
+//@   ensures[C19] roundtrip-d0: D() == 0 ==> result == KF()
+//@   ensures[C19] roundtrip-d1: D() == 1 ==> result == fdiv(KF(), tofp(10))
+//@   ensures[C19] roundtrip-d2: D() == 2 ==> result == fdiv(KF(), tofp(100))
+//@   ensures[C19] roundtrip-d3: D() == 3 ==> result == fdiv(KF(), tofp(1000))
+//@   ensures[C19] roundtrip-d4: D() == 4 ==> result == fdiv(KF(), tofp(10000))
+//@   modifies nothing
